@@ -3,7 +3,7 @@ DL1 digital line bit addressing, SB1 truncation loops stop at the first incomple
 import ast
 
 from .registry import rule
-from .core import call_name, dotted, walk_shallow, walk_body, unparse, AnchorMissing
+from .core import call_name, dotted, walk_shallow, walk_body, unparse, AnchorMissing, names_in
 from .cfg import node_calls
 
 
@@ -300,6 +300,130 @@ def _counts_iterations(ctx, fi, name):
             if any(through(m) for m in r2):
                 return False
     return True
+
+
+def _loop_variant_names(loop):
+    """names whose value can differ between rounds of the loop: its targets, augmented names, and (fixpoint) names assigned in the
+    body from something that mentions one of those"""
+    variant = set()
+    if isinstance(loop, (ast.For, ast.comprehension)):
+        variant |= {n.id for n in ast.walk(loop.target) if isinstance(n, ast.Name)}
+    body = loop.body if isinstance(loop, (ast.For, ast.While)) else []
+    stmts = [n for st in body for n in ast.walk(st)]
+    for n in stmts:
+        if isinstance(n, ast.AugAssign):
+            variant |= {x.id for x in ast.walk(n.target) if isinstance(x, ast.Name)}
+        if isinstance(n, (ast.For, ast.comprehension)):
+            pass
+    changed = True
+    while changed:
+        changed = False
+        for n in stmts:
+            tgt, val = None, None
+            if isinstance(n, ast.Assign):
+                tgt, val = n.targets, n.value
+            elif isinstance(n, ast.AnnAssign) and n.value is not None:
+                tgt, val = [n.target], n.value
+            elif isinstance(n, ast.NamedExpr):
+                tgt, val = [n.target], n.value
+            elif isinstance(n, (ast.For, ast.comprehension)):
+                tgt, val = [n.target], n.iter
+            elif isinstance(n, ast.withitem) and n.optional_vars is not None:
+                tgt, val = [n.optional_vars], n.context_expr
+            if tgt is None:
+                continue
+            if names_in(val) & variant:
+                new = {x.id for t in tgt for x in ast.walk(t) if isinstance(x, ast.Name)} - variant
+                if new:
+                    variant |= new
+                    changed = True
+    return variant
+
+
+@rule("TR2", "the number of rows read or skipped for a raw buffer varies with the buffer, like its width", floor=1)
+def tr2(ctx, R):
+    """DAQmx raw buffers have their own lengths as well as their own widths (get_buffer_dimensions: the length of a buffer is the
+    maximum over the objects whose scalers use it).  Wherever nptdms.daqmx forms rows x width inside a loop (or comprehension) in
+    which the width changes from round to round - i.e. a loop over the buffers - the rows must change with it.  A product (or a
+    (width, rows) pair handed to the row reader) whose width depends on the loop while its row count does not gives every buffer the
+    length of one object: with buffers of differing lengths the bytes read or skipped are wrong."""
+    from .kinds import ROWS, WIDTH
+    prog = ctx.prog
+    K = ctx.dims()
+    products = list(getattr(K, "products", []))
+    n = 0
+
+    def parents_of(fi):
+        par = {}
+        for x in ast.walk(fi.node):
+            for c in ast.iter_child_nodes(x):
+                par[c] = x
+        return par
+
+    def enclosing_loops(par, e, fi):
+        out = []
+        x = e
+        while x in par and x is not fi.node:
+            p_ = par[x]
+            if isinstance(p_, (ast.For, ast.While)) and x in p_.body:
+                out.append(p_)
+            elif isinstance(p_, (ast.ListComp, ast.SetComp, ast.GeneratorExp, ast.DictComp)):
+                # the element expression (and later generators' conditions) are evaluated per round of every generator
+                out.extend(reversed(p_.generators)) if x not in p_.generators else None
+            x = p_
+        return out
+
+    pars = {}
+    sites = []    # (fi, node, rows expr, width expr, text)
+    for fi, e, a, b in products:
+        ka, kb = K.kind(a), K.kind(b)
+        if {ka, kb} != {ROWS, WIDTH}:
+            continue
+        rows, width = (e.left, e.right) if ka == ROWS else (e.right, e.left)
+        sites.append((fi, e, rows, width, "`%s`" % unparse(e)[:60]))
+    # (width, rows) handed to a function whose parameters have these roles
+    for fi in [prog.functions[q] if isinstance(q, str) else q for q in K.analysed]:
+        for c in walk_body(fi.node):
+            if not isinstance(c, ast.Call):
+                continue
+            from .flow import resolve_call
+            for callee, _k in resolve_call(prog, fi, fi.cls, c):
+                roles = {p_: K.kind(K.names.get(("v", callee.qual, p_))) for p_ in callee.params}
+                if ROWS in roles.values() and WIDTH in roles.values():
+                    ps_ = [p_ for p_ in callee.params if not (callee.cls is not None and not callee.is_static and p_ in ("self", "cls"))]
+                    if any(isinstance(a_, ast.Starred) for a_ in c.args) or any(k_.arg is None for k_ in c.keywords):
+                        continue
+                    bound = dict(zip(ps_, c.args))
+                    bound.update({k_.arg: k_.value for k_ in c.keywords})
+                    rw = [bound.get(p_) for p_, k_ in roles.items() if k_ == ROWS]
+                    ww = [bound.get(p_) for p_, k_ in roles.items() if k_ == WIDTH]
+                    if len(rw) == 1 and len(ww) == 1 and rw[0] is not None and ww[0] is not None:
+                        sites.append((fi, c, rw[0], ww[0], "`%s`" % unparse(c)[:60]))
+                break
+    seen_sites = set()
+    for fi, node, rows, width, text in sites:
+        if (fi.qual, node.lineno, node.col_offset, text) in seen_sites:
+            continue
+        seen_sites.add((fi.qual, node.lineno, node.col_offset, text))
+        par = pars.setdefault(fi.qual, parents_of(fi))
+        loops = enclosing_loops(par, node, fi)
+        for L in loops:
+            variant = _loop_variant_names(L)
+            wv = bool(names_in(width) & variant)
+            rv = bool(names_in(rows) & variant)
+            if not wv:
+                continue
+            n += 1
+            key = "%s::rows of %s" % (fi.qual, unparse(width)[:40])
+            if rv:
+                R.ok(key, fi.where(node), "%s: rows `%s` and width `%s` both change with the loop over the buffers" % (text, unparse(rows)[:40], unparse(width)[:40]))
+            else:
+                R.violation(key, fi.where(node), "%s: the width `%s` changes from buffer to buffer in this loop but the row count `%s` does not - every buffer "
+                            "is given the same length. DAQmx buffers have their own lengths (get_buffer_dimensions), so the bytes read or skipped for a "
+                            "buffer of another length are wrong and everything behind it is decoded from the wrong position" % (text, unparse(width)[:40], unparse(rows)[:40]))
+            break
+    if n == 0:
+        R.unrecognised("daqmx::rows x width in a loop over buffers", "nptdms/daqmx.py:1", "no rows x width product inside a loop over the buffers was recognised")
 
 
 @rule("DL1", "a digital line scaler addresses byte raw_bit_offset // 8 and bit raw_bit_offset % 8", floor=3)
